@@ -248,8 +248,28 @@ def run_impl(case):
     c = case["cfg"]
     kw = dict(size=py_arg(c["size"]), data_width=py_arg(c["dw"]), granularity=py_arg(c["gran"]),
               writable=bool(c["wr"]), init=list(c["init"]))
+    # the same initial image installed in six ways (by the shape of the case): list, tuple, one-shot generator
+    # in the constructor; through the `init` setter after construction (on an empty memory, or replacing another
+    # image); poked row by row into `init`
+    image = kw.pop("init")
+    mode = (len(image) * 5 + len(case["stim"])) % 6
     try:
-        dut = WishboneSRAM(**kw)
+        if mode == 1:
+            dut = WishboneSRAM(init=tuple(image), **kw)
+        elif mode == 2:
+            dut = WishboneSRAM(init=(x for x in image), **kw)
+        elif mode == 3:
+            dut = WishboneSRAM(**kw)
+            dut.init = image
+        elif mode == 4:
+            dut = WishboneSRAM(init=[1], **kw)
+            dut.init = (x for x in image)
+        elif mode == 5 and len(image) <= len(WishboneSRAM(**kw).init):
+            dut = WishboneSRAM(**kw)
+            for i, v in enumerate(image):
+                dut.init[i] = v
+        else:
+            dut = WishboneSRAM(init=image, **kw)
     except TypeError:
         return [-2, 1]
     except ValueError:
